@@ -355,16 +355,16 @@ prop('C09',
      explanation='Bounded symbolic execution of the real KeepAliveTracker and the TransportService code around it (connection established / closed, open_substream, the poll '
                  'loop that downgrades idle connections) on a harness-driven virtual clock, against a reference of the last keep-alive activity per connection.',
      units=[
-         dict(harness='c09_keep_alive', covers=['c09.established', 'c09.time-passes', 'c09.substream-requested', 'c09.polled', 'c09.downgraded', 'c09.closed'],
+         dict(harness='c09_keep_alive', covers=['c09.established', 'c09.time-passes', 'c09.substream-requested', 'c09.substream-opened', 'c09.polled', 'c09.downgraded', 'c09.closed'],
               min_paths=1000, split={'quick': 4, 'thorough': 5}, params={'quick': {'steps': 5, 'fifo_futures': 1}, 'thorough': {'steps': 7, 'fifo_futures': 1}}, conform={'quick': 200, 'thorough': 2000}, nvals=24),
      ],
      assumptions=['time is the virtual clock of litep2p::verif_clock (feature `verif`): under the feature the tracker reads that clock and sleeps on it instead of std::time::Instant / tokio::time::sleep - two lines of production code differ',
                   'the connection stays open while this protocol\'s handle is downgraded (the kernel connection holds a second strong sender, like another protocol would); '
                   'whether the connection task really ends when the last strong sender is gone is a cross-task matter outside the claim'],
-     bounds={'timeout': '2..3 ticks of 100 ms', 'events': 'quick 5, thorough 6 of establish (<= 2 connections of one peer) / 1..2 ticks pass / the protocol requests a substream / the service is polled / a connection closes',
+     bounds={'timeout': '2..3 ticks of 100 ms', 'events': 'quick 5, thorough 6 of establish (<= 2 connections of one peer) / 1..2 ticks pass / the protocol requests a substream / the remote opens a substream of the protocol / the service is polled / a connection closes',
              'protocol class': 'keep-alive (notifications, request-response, Kademlia, Bitswap, user protocols) or not (ping, identify)'},
      outside=['the real clock and timer wheel', 'substreams that exist (their permits keep the connection open in the connection task): only substream requests are events here',
-              'the SubstreamOpened event path (try_upgrade on an opened substream)', 'the connection task closing the connection once every protocol has downgraded it'],
+              'the connection task closing the connection once every protocol has downgraded it'],
      )
 
 prop('C11',
